@@ -23,7 +23,8 @@ import (
 type lcLogger struct {
 	name    string
 	tags    string
-	failing bool // Start returns an error
+	failing bool   // Start returns an error
+	alias   string // what GetName reports (default: the configured name)
 }
 
 type lcConfig struct {
@@ -71,7 +72,9 @@ func (c *Ctx) newLcWorld(ro *Roles) (*lcWorld, string) {
 	return w, ""
 }
 
-var lcTags = []string{"aaa", "aaa_bbb", "aaa_bbb_ccc", "aaa_bbb_ccc_ddd", "_aaa", "_aaa_bbb", "aaa_bbx", "xyz_www"}
+var lcTags = []string{"aaa", "aaa_bbb", "aaa_bbb_ccc", "aaa_bbb_ccc_ddd", "_aaa", "_aaa_bbb", "a_b", "a_b_c", "_a_b", "ab_c", "aaa_bbx", "xyz_www"}
+
+const lcInitialTags = 10 // the rest is registered by the "register" operation
 var lcHandles = []string{"l1", "l2"}
 
 func lcConfigs() []lcConfig {
@@ -82,6 +85,9 @@ func lcConfigs() []lcConfig {
 			{name: "l1", tags: "aaa_bbb_ccc_*"}, {name: "l2", tags: "aaa_bbb_ccc_ddd,aaa_bbx_*,aaa_bb_*,_*"}}},
 		{name: "C", appenders: []string{"a1"}, valid: true, loggers: []lcLogger{
 			{name: "l2", tags: "aaa"}, {name: "root"}, {name: "l1", tags: "aaa_bbb_ccc,aaa_bbb_ccc"}}},
+		{name: "D", appenders: []string{"a2"}, valid: true, loggers: []lcLogger{
+			{name: "l1", tags: "a_*"}, {name: "l2", tags: "_a_*,ab_*,a_b_c"}, {name: "root"}}},
+		{name: "dupname", appenders: []string{"a1"}, why: "two different loggers (reporting the same name) list the same tag", loggers: []lcLogger{{name: "l1", tags: "aaa", alias: "twin"}, {name: "l2", tags: "aaa", alias: "twin"}}},
 		{name: "dup", appenders: []string{"a1"}, why: "two loggers list the same tag", loggers: []lcLogger{{name: "l1", tags: "aaa_*"}, {name: "l2", tags: "xyz_www,aaa_*"}}},
 		{name: "roottags", appenders: []string{"a1"}, why: "the root logger lists tags", loggers: []lcLogger{{name: "root", tags: "aaa"}, {name: "l1", tags: "xyz_www"}, {name: "l2", tags: "aaa_bbb"}}},
 		{name: "notags", appenders: []string{"a1"}, why: "a non-root logger lists no tags", loggers: []lcLogger{{name: "l1", tags: " , "}, {name: "l2", tags: "aaa"}}},
@@ -245,6 +251,11 @@ func (w *lcWorld) newState() *lcState {
 		kind, name, _ := strings.Cut(recv.Name, ":")
 		switch method {
 		case "GetName":
+			for _, l := range st.cfgs[st.active].loggers {
+				if kind == "logger" && l.name == name && l.alias != "" {
+					return kStr(l.alias), true
+				}
+			}
 			return kStr(name), true
 		case "GetTags":
 			for _, l := range st.cfgs[st.active].loggers {
@@ -317,11 +328,12 @@ func (st *lcState) configData(cfg lcConfig) AV {
 }
 
 type lcModel struct {
-	configured bool   // a Refresh got past its guard and no Destroy followed
-	live       string // name of the successfully applied config, "" otherwise
-	failed     bool   // the last Refresh since the last Destroy failed after the guard
-	tags       map[string]bool
-	handles    map[string]bool
+	configured  bool   // a Refresh got past its guard and no Destroy followed
+	live        string // name of the successfully applied config, "" otherwise
+	failed      bool   // the last Refresh since the last Destroy failed after the guard
+	halfApplied bool   // … and had started something that is still running
+	tags        map[string]bool
+	handles     map[string]bool
 }
 
 func (c *Ctx) checkLifecycleSemantics(r *Report, ro *Roles, rule string, thorough bool) bool {
@@ -336,7 +348,7 @@ func (c *Ctx) checkLifecycleSemantics(r *Report, ro *Roles, rule string, thoroug
 		return false
 	}
 	key := rule + ":sequences"
-	ops := []string{"refresh:A", "refresh:B", "refresh:C", "refresh:dup", "refresh:late", "refresh:nohandle", "destroy", "probe", "register", "handle"}
+	ops := []string{"refresh:A", "refresh:B", "refresh:D", "refresh:dup", "refresh:late", "refresh:nohandle", "destroy", "probe", "register", "handle"}
 	maxLen := 3
 	if thorough {
 		maxLen = 4
@@ -368,15 +380,33 @@ func (c *Ctx) checkLifecycleSemantics(r *Report, ro *Roles, rule string, thoroug
 			bad = append(bad, fmt.Sprintf("after [%s]: %s", strings.Join(seq[:i+1], " → "), fmt.Sprintf(format, args...)))
 		}
 	}
-seqLoop:
+	type job struct {
+		seq  []string
+		desc bool
+	}
+	var jobs []job
 	for _, seq := range seqs {
+		jobs = append(jobs, job{seq, false})
+		hasRefresh, hasProbe := false, false
+		for _, op := range seq {
+			hasRefresh = hasRefresh || strings.HasPrefix(op, "refresh:")
+			hasProbe = hasProbe || (hasRefresh && op == "probe")
+		}
+		if hasProbe {
+			jobs = append(jobs, job{seq, true}) // the other map iteration order
+		}
+	}
+seqLoop:
+	for _, jb := range jobs {
+		seq := jb.seq
 		if len(bad) >= 4 {
 			break
 		}
 		st := w.newState()
+		st.ip.MapDesc = jb.desc
 		mdl := &lcModel{tags: map[string]bool{}, handles: map[string]bool{}}
 		// initial registrations (before any configuration)
-		for _, t := range lcTags[:6] {
+		for _, t := range lcTags[:lcInitialTags] {
 			res, out, err := st.call(w.regTag, kStr(t))
 			if err != nil {
 				oodWhy = err.Error()
@@ -440,9 +470,18 @@ seqLoop:
 						continue seqLoop
 					}
 					mdl.configured, mdl.failed = true, true
+					for _, e := range st.events[len(before):] {
+						if strings.HasPrefix(e, "start ") && !st.stopped[strings.TrimPrefix(e, "start ")] {
+							mdl.halfApplied = true
+						}
+					}
 				case mdl.failed:
-					// after a failed Refresh and before Destroy the property does not say whether a new Refresh is accepted
+					// after a failed Refresh and before Destroy: if that Refresh had started anything, a new one on top of the
+					// half-applied configuration must be rejected; otherwise the property does not say
 					if isNil {
+						if mdl.halfApplied {
+							fail(seq, i, "a Refresh is accepted on top of a half-applied configuration (an earlier Refresh failed after it had started loggers/appenders, and no Destroy followed)")
+						}
 						mdl.live, mdl.failed = arg, false
 					}
 				default:
@@ -464,6 +503,11 @@ seqLoop:
 					continue seqLoop
 				}
 				evs := st.events[before:]
+				for _, e := range evs {
+					if n := strings.TrimPrefix(e, "stop "); n != e && !st.started[n] && n != "logger:builtin" {
+						fail(seq, i, "Destroy stops %s, which was never started (Stop of a never-started asynchronous logger blocks on its nil queue)", n)
+					}
+				}
 				if mdl.live != "" {
 					// everything started by the live configuration is stopped exactly once, loggers before appenders
 					cfg := st.cfgs[mdl.live]
@@ -493,14 +537,19 @@ seqLoop:
 				} else if !mdl.configured && !mdl.failed && len(evs) > 0 {
 					fail(seq, i, "Destroy without a live configuration stops %v", evs)
 				}
-				mdl.configured, mdl.live, mdl.failed = false, "", false
+				mdl.configured, mdl.live, mdl.failed, mdl.halfApplied = false, "", false, false
+				for n := range st.started {
+					if st.stopped[n] {
+						delete(st.started, n)
+					}
+				}
 			case "register", "handle":
-				fn, name := w.regTag, lcTags[6]
+				fn, name := w.regTag, lcTags[lcInitialTags]
 				if kind == "handle" {
 					fn, name = w.getLog, "l1"
 				}
 				if i%2 == 1 && kind == "register" {
-					name = lcTags[7]
+					name = lcTags[lcInitialTags+1]
 				}
 				res, out, err := st.call(fn, kStr(name))
 				if err != nil {
